@@ -85,10 +85,14 @@ def run(rep, program: Program, tier: str) -> None:
         "R3 is bounded in the number of free coefficients (stated in coverage), exact in their values",
     ]
     runs = list(c02.integrator_runs(program, tier))
-    c02.rule_r1_r2(rep, program, prop=PROP, ids=("copy-discipline (C02)", "R0"))
+    rep.isolate(c02.rule_r1_r2, rep, program, prop=PROP, ids=("copy-discipline (C02)", "R0"))
     rep.rules = [x for x in rep.rules if x.rule == "R0"]  # keep only the time-argument rule
-    rule_r1(rep, runs)
-    c02.rule_r3(rep, program, runs, prop=PROP, rule="R2")
-    rule_r3(rep, program, tier)
+    rep.isolate(rule_r1, rep, runs)
+    rep.isolate(c02.rule_r3, rep, program, runs, prop=PROP, rule="R2")
+    rep.isolate(rule_r3, rep, program, tier)
     rep.extra["integrator_instances_executed"] = len(runs)
     rep.extra["bound_n_free_coefficients"] = 12 if tier == "thorough" else 6
+    # the component flows a step is composed of must be those of the *current* Hamiltonian (shared with C07-R5)
+    from . import c07
+
+    rep.isolate(c07.rule_r5, rep, program, prop=PROP, rule="R4")
